@@ -29,6 +29,15 @@ Fixpoint run (o : oracles) (c : chain) (bs : list block) : chain :=
 Lemma run_app o c b1 b2 : run o c (b1 ++ b2) = run o (run o c b1) b2.
 Proof. revert c; induction b1 as [|[t txs] r IH]; intros c; simpl; [reflexivity | apply IH]. Qed.
 
+(** the end blocker (x/burn) only touches the bank *)
+Lemma end_block_custom e c :
+  c_aol (end_block e c) = c_aol c /\ c_did (end_block e c) = c_did c /\ c_pnft (end_block e c) = c_pnft c /\
+  c_grants (end_block e c) = c_grants c.
+Proof.
+  unfold end_block. destruct Generated.GenApp.burn_in_end_blockers; [|auto].
+  destruct (burn_end_block (e_now e) (c_bank c)); simpl; auto.
+Qed.
+
 (** the results of every transaction of a history, block by block *)
 Fixpoint run_results (o : oracles) (c : chain) (bs : list block) : list (list tx_result) :=
   match bs with
